@@ -70,6 +70,7 @@ func cases(run *vf.Run) ([]json.RawMessage, error) {
 	out = append(out, vf.Spec(spec{Kind: "demo-F3", Seed: 103, Cfg: base}))
 	out = append(out, vf.Spec(spec{Kind: "demo-F19", Seed: 119, Cfg: base}))
 	out = append(out, vf.Spec(spec{Kind: "demo-F36", Seed: 136, Cfg: base}))
+	out = append(out, vf.Spec(spec{Kind: "demo-F37", Seed: 139, Cfg: base}))
 	for i, ps := range []int{4096, 1024, 16384} {
 		c := base
 		c.PageSize = ps
@@ -832,21 +833,6 @@ func (w *world) rollbackDBWAL() error {
 				w.offCommits++
 			}
 		}
-		// witness predicate of F36
-		if newWAL, err := os.ReadFile(w.DBPath + "-wal"); err == nil && len(oldWAL) > 32 && len(newWAL) >= len(oldWAL) {
-			fs := w.Cfg.PageSize + 24
-			a, b := oldWAL[len(oldWAL)-fs:], newWAL[len(oldWAL)-fs:len(oldWAL)]
-			samePg := bytes.Equal(a[:4], b[:4])
-			sameImg := bytes.Equal(a[24:], b[24:])
-			differsBefore := !bytes.Equal(oldWAL[32:len(oldWAL)-fs], newWAL[32:len(oldWAL)-fs])
-			w.Logf("frame in front of the old cursor (offset %d): same page number=%v same page image=%v earlier frames differ=%v", len(oldWAL), samePg, sameImg, differsBefore)
-			if samePg && sameImg && differsBefore {
-				w.identicalAtCursor = true
-				w.Res.Count("db_wal_rollback_identical_image_at_cursor", 1)
-			} else if samePg && differsBefore {
-				w.Res.Count("db_wal_rollback_same_page_other_image_at_cursor", 1)
-			}
-		}
 	} else {
 		for i := w.rng.Intn(5); i > 0; i-- {
 			ok, err := w.writeTable([]string{"t2", "t0", "t1"}[w.rng.Intn(3)])
@@ -856,6 +842,21 @@ func (w *world) rollbackDBWAL() error {
 			if ok {
 				w.offCommits++
 			}
+		}
+	}
+	// witness predicate of F36
+	if newWAL, err := os.ReadFile(w.DBPath + "-wal"); err == nil && len(oldWAL) > 32 && len(newWAL) >= len(oldWAL) {
+		fs := w.Cfg.PageSize + 24
+		a, b := oldWAL[len(oldWAL)-fs:], newWAL[len(oldWAL)-fs:len(oldWAL)]
+		samePg := bytes.Equal(a[:4], b[:4])
+		sameImg := bytes.Equal(a[24:], b[24:])
+		differsBefore := !bytes.Equal(oldWAL[32:len(oldWAL)-fs], newWAL[32:len(oldWAL)-fs])
+		w.Logf("frame in front of the old cursor (offset %d): same page number=%v same page image=%v earlier frames differ=%v", len(oldWAL), samePg, sameImg, differsBefore)
+		if samePg && sameImg && differsBefore {
+			w.identicalAtCursor = true
+			w.Res.Count("db_wal_rollback_identical_image_at_cursor", 1)
+		} else if samePg && differsBefore {
+			w.Res.Count("db_wal_rollback_same_page_other_image_at_cursor", 1)
 		}
 	}
 	return w.restartNewObject()
@@ -926,7 +927,7 @@ func runCase(run *vf.Run, raw json.RawMessage, dir string) *vf.Result {
 			return herr(err)
 		}
 		w.ackCheck("after disturbance (db-wal-rolled-back, same page number at the cursor)", 0)
-	case "demo-F1", "demo-F2", "demo-F3", "demo-F19":
+	case "demo-F1", "demo-F2", "demo-F3", "demo-F19", "demo-F37":
 		if v := runDemo(w, s.Kind); v != nil {
 			return herr(v)
 		}
@@ -1017,6 +1018,50 @@ func runDemo(w *world, kind string) error {
 		return nil
 	}
 	switch kind {
+	case "demo-F37":
+		// a long first WAL generation, ack, litestream restarted; while it is down the
+		// application restarts the WAL twice: a middle generation that is written and
+		// checkpointed completely unseen, and a current one that is shorter than the first but
+		// LONGER than the middle one (its tail is a rolled-back transaction with spilled
+		// frames), so nothing of the middle generation is left in the WAL file
+		w.shapes = append(w.shapes, "restart-new-object", "off:two-restarts/middle-generation-overwritten")
+		for i := 0; i < 10; i++ {
+			if _, err := w.AppWriteKind("ins-multi"); err != nil {
+				return err
+			}
+		}
+		if w.ackCheck("long first generation", 0) {
+			return nil
+		}
+		if err := w.closeLS(); err != nil {
+			return err
+		}
+		w.AppCheckpoint("RESTART")
+		for i := 0; i < 4; i++ {
+			if ok, err := w.writeTable("t2"); err != nil {
+				return err
+			} else if ok {
+				w.offCommits++
+			}
+		}
+		w.AppCheckpoint("RESTART")
+		for i := 0; i < 2; i++ {
+			if ok, err := w.writeTable("t1"); err != nil {
+				return err
+			} else if ok {
+				w.offCommits++
+			}
+		}
+		if _, err := w.AppWriteKind("rollback-spill"); err != nil {
+			return err
+		}
+		if b, err := os.ReadFile(w.DBPath + "-wal"); err == nil {
+			wl := oracle.ParseWAL(b)
+			w.Logf("WAL before the restart: %d bytes, current generation salts %08x/%08x, last commit frame %d", len(b), wl.Salt1, wl.Salt2, wl.LastCommit)
+		}
+		if err := w.restartNewObject(); err != nil {
+			return err
+		}
 	case "demo-F1":
 		// ack; Close; app updates t0, wal_checkpoint(TRUNCATE), inserts into t2; Open (same object); ack
 		w.shapes = append(w.shapes, "close-open-same-object", "off:writes+TRUNCATE/after:longer")
